@@ -107,6 +107,7 @@ class BodyGen:
         self.maxdepth = depth
         self.trig = trig
         self.planted = False
+        self.brace_depth = 0  # > 0 anywhere below a {...} group (brace-unsafe shapes are avoided there)
         self.ctx = "top"      # which walker scans the current text: top (process_scope), brace, paren (walk_escaped)
 
     def word_part(self, d, indq=False, insub=False):
@@ -129,7 +130,7 @@ class BodyGen:
             return "${x" + r.choice([":-", ":+", "-", "%", "%%", "#", "##", "/", "//", ":="]) + self.pe_word(d, indq) + "}"
         if k == 5:
             self.feat.add("pe-brace")
-            if self.ctx == "brace" and not indq:
+            if self.brace_depth > 0 and not indq:
                 return "${x" + r.choice(["%", "%%", "#", "//", ":-", "/"]) + r.choice(["a", "*", "a*b"]) + "}"
             return "${x" + r.choice(["%", "%%", "#", "//", ":-", "/"]) + r.choice(["\\}", "\\}*", "a\\}b", "\\}/\\{", "\\{", "{"]) + "}"
         if k == 6 and d < self.maxdepth:
@@ -153,7 +154,7 @@ class BodyGen:
             return t
         if k == 10:
             self.feat.add("brace-char")
-            return r.choice(["}", "{", "{}", "}{", "a}", "{a", "};"]) if indq else r.choice(["{a,b}", "{}", "a}", "{1..3}", "x{a,b}y"] if self.ctx != "brace" else ["{a,b}", "{}", "{1..3}", "x{a,b}y"])
+            return r.choice(["}", "{", "{}", "}{", "a}", "{a", "};"]) if indq else r.choice(["{a,b}", "{}", "a}", "{1..3}", "x{a,b}y"] if self.brace_depth == 0 else ["{a,b}", "{}", "{1..3}", "x{a,b}y"])
         if k == 11:
             self.feat.add("hash-char")
             return r.choice(["#", "a#b", "#}"]) if indq else r.choice(["a#b", "x#"])
@@ -293,7 +294,9 @@ class BodyGen:
         if k == 9:
             self.feat.add("group")
             old, self.ctx = self.ctx, "brace"
+            self.brace_depth += 1
             t = "{ " + self.cmdlist(d + 1, ingroup=True) + "; }"
+            self.brace_depth -= 1
             self.ctx = old
             return t
         if k == 10:
@@ -338,7 +341,7 @@ class BodyGen:
             if self.plainmode:
                 return "[[ " + r.choice(["a == \"}\"", "-n x", "x = a*", "a != '{' && b == x", "x == \"{\""]) + " ]]"
             return "[[ " + r.choice(["$a == \"}\"", "-n $x", "$x = a*", "$x =~ ^a.*$", "$a != '{' && $b == x", "${x} == \"{\""]
-                                    + (["-z ${x%\\}}"] if self.ctx != "brace" else [])) + " ]]"
+                                    + (["-z ${x%\\}}"] if self.brace_depth == 0 else [])) + " ]]"
         if k == 19 or k == 20:
             return self.heredoc(safe=ingroup)
         if k == 21:
@@ -948,7 +951,7 @@ def main(chk: Check):
         return 3 * q if chk.fingerprint_changed else q
 
     # ---- dump stream
-    cases = build_cases(chk, budget(90, 1500), depth=2 if not chk.thorough else 3)
+    cases = build_cases(chk, budget(90, 800), depth=2 if not chk.thorough else 3)
     hc = Case()       # the one fixed case of the hang class (costs its 2 s alarm once per run)
     hc.chunks, hc.feat, hc.trig = [("f", "f", "f () \n{ \n    cat <<''\nx\n\n}\n"), ("v", "Z", "Z=1\n")], {"heredoc-empty-delim"}, {}
     hc.vars, hc.funcs, hc.vwl, hc.fwl = [], ["f"], False, False
@@ -990,7 +993,7 @@ def main(chk: Check):
     pool = list(SNIPPETS) + small
     for s in SNIPPETS:
         raw.append((s, ["foo", "dar", "a", "x", "MODULE_NAMES", "FOO", "g"], ["foo", "f", "src_unpack", "x"], False, False))
-    for _ in range(budget(100, 3000)):
+    for _ in range(budget(100, 2000)):
         k = rng.randrange(3)
         if k == 0:
             s = "".join(rng.choice(SOUP) for _ in range(rng.randint(0, 24)))
@@ -1018,7 +1021,7 @@ def main(chk: Check):
     b1_py = [i for i, c in enumerate(cases) if c.impl != expected_text(c)]
 
     # ---- B2: bash oracle on a sample plus every textual failure
-    nb2 = budget(40, 400)
+    nb2 = budget(40, 300)
     sel = sorted(set(range(min(nb2, len(cases)))) | set(b1_py[:60]))
     b2s = bash_oracle(chk, [cases[i] for i in sel])
     b2 = {sel[k]: v for k, v in b2s.items()}
@@ -1047,7 +1050,7 @@ def main(chk: Check):
     #      stream lies inside the proved grammar (def_ok)
     if ok:
         rcases = []
-        for c in cases[: budget(30, 600)]:
+        for c in cases[: budget(30, 300)]:
             if c is hc or isinstance(c.impl, Err):
                 continue
             term = lex_case(c)
